@@ -42,40 +42,14 @@ Theorem c17_saved_dot_drifts : forall F W rb rr k es cwd,
 Proof. exact curdir_drift. Qed.
 Print Assumptions c17_saved_dot_drifts.
 
-(* ==== BEGIN SOURCE-STATE BLOCKS =========================================================================
-   Two independent switches.  In each, exactly one alternative compiles, depending on /repo:
-     (An) the pinned source: the property is REFUTED on the model (witness replayed on the implementation by the check);
-     (Bn) after the corresponding fix: the full positive statement.
-   To switch one: comment its (An) theorem out, strip the 'B> ' prefixes of its (Bn) lines and move them out of the
-   comment, and delete the matching entry of known_findings.d/C17.json.
-     1 = utils.pushd saves os.getcwd()            (notes/C17-fix-1.diff, finding pushd-saves-dot:...)
-     2 = resolve_diff_args all-paths base = HEAD  (notes/C17-fix-2.diff, finding cli-all-paths:...)
-   The other two findings (rename across the suffix, clean filter + deleted file) need no switch: their source facts
-   f_skip_both / f_filter_in_try are generated, the theorems above are stated for every value, and the
-   correspondence check follows the code. *)
+(* Source-state blocks.  Both defects were repaired in /repo (e5eae7c: pushd saves os.getcwd();
+   a4982c2: nbdiff with only paths compares HEAD with the working tree); the positive statements hold for
+   the regenerated source facts.  Reverting either fix flips the generated fact and breaks the proof below. *)
+Theorem c17_full : full_property src_facts.
+Proof. exact (full_of_good src_facts (conj eq_refl eq_refl)). Qed.
+Print Assumptions c17_full.
 
-(* (A1) *)
-Theorem c17_cwd_restored_refuted : subdir_refuted src_facts.
-Proof. exact (refuted_of_curdir src_facts eq_refl eq_refl). Qed.
-Print Assumptions c17_cwd_restored_refuted.
-(* (B1)
-B> Theorem c17_full : full_property src_facts.
-B> Proof. exact (full_of_good src_facts (conj eq_refl eq_refl)). Qed.
-B> Print Assumptions c17_full.
-*)
-
-(* (A2) *)
-Theorem c17_cli_all_paths_refuted : forall is_gitref x y z ps,
-  cli_hyps is_gitref (x :: y :: z :: ps) -> is_gitref (Some x) = false ->
-  main_mode src_facts is_gitref (x :: y :: z :: ps) = GitMode RWorktree RWorktree (x :: y :: z :: ps) /\
-  spec_mode is_gitref (x :: y :: z :: ps) = GitMode head_ref RWorktree (x :: y :: z :: ps) /\
-  main_mode src_facts is_gitref (x :: y :: z :: ps) <> spec_mode is_gitref (x :: y :: z :: ps).
-Proof. exact (fun g x y z ps => cli_allpaths_none_refuted src_facts g x y z ps eq_refl). Qed.
-Print Assumptions c17_cli_all_paths_refuted.
-(* (B2)
-B> Theorem c17_cli_full : forall is_gitref args, cli_hyps is_gitref args ->
-B>   main_mode src_facts is_gitref args = spec_mode is_gitref args.
-B> Proof. exact (fun g args => cli_allpaths_head src_facts g args eq_refl). Qed.
-B> Print Assumptions c17_cli_full.
-*)
-(* ==== END SOURCE-STATE BLOCKS ============================================================================ *)
+Theorem c17_cli_full : forall is_gitref args, cli_hyps is_gitref args ->
+  main_mode src_facts is_gitref args = spec_mode is_gitref args.
+Proof. exact (fun g args => cli_allpaths_head src_facts g args eq_refl). Qed.
+Print Assumptions c17_cli_full.
